@@ -786,6 +786,52 @@ namespace
                 }
               catch (const std::exception &e) { mism("section-2d", std::string("the 3D query is answered, the 2D query threw: ") + e.what()); }
             }
+          // "subsets": {singles: [h...], names: [tag...], worlds: [[mask, h], ...]}: the worlds built from one feature each tell
+          // which features contain the point (their tag is not -1); the world built from exactly those features (same order) must
+          // answer bit for bit like the full world, and the full world's tag is the tag string of the last containing feature
+          if (!only_finite && s.HasMember("subsets") && dim == 3)
+            {
+              const Value &ss = s["subsets"];
+              const std::vector<std::array<unsigned int,3>> tagp(1, std::array<unsigned int,3> {{4, 0, 0}});
+              const std::array<double,3> pt {{c[0], c[1], c[2]}};
+              const std::string rowtxt = "row [" + fmt(c[0]) + "," + fmt(c[1]) + "," + fmt(c[2]) + "," + fmt(c[3]) + "]";
+              try
+                {
+                  unsigned int mask = 0, k = 0; int top = -1; bool ok = true;
+                  for (auto &hv : ss["singles"].GetArray())
+                    {
+                      Handle &S = handle(hv.GetInt());
+                      if (!S.alive || !S.world()) { ok = false; break; }
+                      ++stats.queries;
+                      if (S.world()->properties(pt, c[3], tagp)[0] >= 0) { mask |= 1u << k; top = static_cast<int>(k); }
+                      ++k;
+                    }
+                  if (ok)
+                    {
+                      const double tfull = w.properties(pt, c[3], tagp)[0];
+                      const std::string got = tfull < 0 ? "-1" : (static_cast<size_t>(tfull) < w.feature_tags.size() ? w.feature_tags[static_cast<size_t>(tfull)] : "out of range");
+                      const std::string want = top < 0 ? "-1" : ss["names"][static_cast<unsigned>(top)].GetString();
+                      ++stats.queries; ++stats.checks; ++stats.by_check[mask == 0 ? "subset-background" : "subset-tag"];
+                      if (got != want)
+                        mism(mask == 0 ? "subset-background" : "subset-tag", rowtxt + ": the tag is not that of the last feature that contains the point on its own (containing set " + std::to_string(mask) + ")", -1, got, want);
+                      for (auto &mw : ss["worlds"].GetArray())
+                        if (mw[0].GetUint() == mask)
+                          {
+                            Handle &R = handle(mw[1].GetInt());
+                            if (!R.alive || !R.world()) continue;
+                            const std::vector<double> o3 = R.world()->properties(pt, c[3], props);
+                            ++stats.queries; ++stats.checks; ++stats.by_check[mask == 0 ? "subset-background" : "subset-paint"];
+                            bool same = o3.size() == out.size();
+                            size_t where = 0;
+                            for (size_t i = 0; same && i < out.size(); ++i) if (bits(out[i]) != bits(o3[i])) { same = false; where = i; }
+                            if (!same)
+                              mism(mask == 0 ? "subset-background" : "subset-paint", rowtxt + ": the world made of the features that contain the point (set " + std::to_string(mask) + ") answers differently from the full world",
+                                   static_cast<long>(where), where < out.size() ? fmt(out[where]) : "", where < o3.size() ? fmt(o3[where]) : "");
+                          }
+                    }
+                }
+              catch (const std::exception &e) { mism("subset-paint", rowtxt + ": the full world answers, a subset world threw: " + e.what()); }
+            }
           if (s.HasMember("h2"))     // the same query on a twin world must give bit-identical values
             {
               Handle &H2 = handle(s["h2"].GetInt());
